@@ -176,6 +176,36 @@ Section Oracles.
     | None => false
     end.
 
+  (* ---- the control topic with its busy window (internalAPI + hub.go).  internalAPI handles one command at a
+     time; its Send channel is unbuffered and the hub offers every message of the topic to it WITHOUT waiting
+     (`select { case client.Send <- message: default: }`).  So a command that arrives on the topic while the
+     handler is still busy with an earlier one - decoding it, or waiting for the hub to take its reply - is
+     dropped: no error, no reply (known finding F17).  When the handler is waiting again is timing: [TReady] is
+     part of the history. *)
+  Inductive tev :=
+  | TArrive (c : option command)   (* a command is broadcast on the api topic *)
+  | TReady.                        (* the handler has put its reply on the topic and waits for the next command *)
+
+  Record tst := mkt { t_st : st; t_busy : bool }.
+
+  (* per arrival: [Some a] = taken by the handler, answered a; [None] = dropped by the hub, never answered *)
+  Definition tstep (fx : fixes) (t : tst) (e : tev) : tst * option (option answer) :=
+    match e with
+    | TArrive c =>
+        if t_busy t then (t, Some None)
+        else let '(s', a) := step fx (t_st t) c in (mkt s' true, Some (Some a))
+    | TReady => (mkt (t_st t) false, None)
+    end.
+
+  Fixpoint trun (fx : fixes) (t : tst) (evs : list tev) : tst * list (option answer) :=
+    match evs with
+    | [] => (t, [])
+    | e :: r =>
+        let '(t1, o) := tstep fx t e in
+        let '(t2, l) := trun fx t1 r in
+        (t2, match o with Some x => x :: l | None => l end)
+    end.
+
   (* ---- the HTTP rule API (handleDestination*.go, handleStream*.go) on the same tables.  The request is
      taken after gorilla/mux has routed it: which handler, with which path variable / decoded body. *)
   Inductive hreq :=
